@@ -273,6 +273,7 @@ EXPORT char *_strtok_s_chk(char *restrict dest, rsize_t *restrict dmaxp,
          */
         slen = STRTOK_DELIM_MAX_LEN;
         pt = delim;
+        ptoken = dest; /* a token starts here unless it is a delimiter */
         while (*pt != '\0') {
 
             if (unlikely(slen == 0)) {
